@@ -702,12 +702,13 @@ class IsoHybrid:
 
         psize = 0
         ecyle = 0
+        esect = 0
         offset = 32 + struct.calcsize(self.FMT)
         for i in range(1, 5):
             if bytes(bytearray([instr[offset]])) == b'\x80':
                 self.part_entry = i
                 (const_unused, self.bhead, self.bsect, self.bcyle, self.ptype,
-                 self.ehead, esect_unused, ecyle, self.part_offset,
+                 self.ehead, esect, ecyle, self.part_offset,
                  psize) = struct.unpack_from('<BBBBBBBBLL', instr[:offset + 16], offset)
             if i == 2 and instr[offset:offset + 8] == self.EFI_HEADER:
                 self.efi = True
@@ -728,7 +729,12 @@ class IsoHybrid:
 
         self.geometry_heads = self.ehead + 1
 
-        self.geometry_sectors = min(psize // ((ecyle + 1) * self.geometry_heads), 63)
+        # The low six bits of the ending sector field hold the sectors per track
+        # (the upper two bits are bits 8 and 9 of the ending cylinder).  Only if
+        # that field is empty do we estimate it from the partition size.
+        self.geometry_sectors = esect & 0x3f
+        if self.geometry_sectors == 0:
+            self.geometry_sectors = min(psize // ((ecyle + 1) * self.geometry_heads), 63)
 
         if self.efi:
             self.primary_gpt.parse_primary(instr, self.mac)
